@@ -149,6 +149,12 @@ func init() {
 				if rapid.IntRange(0, 4).Draw(t, "mut") == 4 {
 					c.Doc = mutateBytes(t, c.Doc)
 				}
+				if c.Format == "cborl" && rapid.IntRange(0, 5).Draw(t, "unsup") == 5 {
+					// well-formed CBOR with one item outside the subset: whatever the
+					// parser does with it, what it emits must obey the contract
+					c.Doc, _ = drawCBORUnsupported(t)
+					d.Spans = nil
+				}
 				if rapid.Bool().Draw(t, "chunk") {
 					c.Cuts = gen.Cuts(t, len(c.Doc), d.Spans)
 				}
